@@ -31,14 +31,16 @@ pub struct GenCfg {
     pub well_typed_only: bool,
     pub modules: bool,
     pub funcs: bool,
+    /// extra literal forms (escapes, non-ASCII, extreme floats) for the formatter checks
+    pub literal_variety: bool,
 }
 
 impl GenCfg {
     pub fn quick() -> Self {
-        GenCfg { max_depth: 6, max_stmts: 12, max_width: 4, wrong_permille: 12, well_typed_only: false, modules: true, funcs: true }
+        GenCfg { max_depth: 6, max_stmts: 12, max_width: 4, wrong_permille: 12, well_typed_only: false, modules: true, funcs: true, literal_variety: false }
     }
     pub fn thorough() -> Self {
-        GenCfg { max_depth: 8, max_stmts: 30, max_width: 8, wrong_permille: 8, well_typed_only: false, modules: true, funcs: true }
+        GenCfg { max_depth: 8, max_stmts: 30, max_width: 8, wrong_permille: 8, well_typed_only: false, modules: true, funcs: true, literal_variety: false }
     }
 }
 
@@ -109,8 +111,20 @@ impl<'a, 'b> Gen<'a, 'b> {
                     E::Int(i)
                 }
             }
-            Ty::Float => E::Float(FLOATS[self.t.choice(FLOATS.len())]),
-            Ty::Str => E::Str(STRS[self.t.choice(STRS.len())].to_string()),
+            Ty::Float => {
+                if self.cfg.literal_variety && self.t.chance(1, 3) {
+                    E::Float(*self.t.pick(&[1.0, 100.0, 0.0, 1e21, 1e-7, 123456.789, 2.0]))
+                } else {
+                    E::Float(FLOATS[self.t.choice(FLOATS.len())])
+                }
+            }
+            Ty::Str => {
+                if self.cfg.literal_variety && self.t.chance(1, 3) {
+                    E::Str((*self.t.pick(&["é", "a\"b", "a\\b", "x\ny", "tab\there", "日本語", "@", "\\@", "it's", "//not a comment", "semi;colon"])).to_string())
+                } else {
+                    E::Str(STRS[self.t.choice(STRS.len())].to_string())
+                }
+            }
             Ty::Bool => E::Bool(self.t.chance(1, 2)),
             Ty::Null => E::Null,
             Ty::List(el) => {
